@@ -49,6 +49,10 @@ EXTRA = {
     'W4': [('Data', {'A1': 1, 'A2': 2, 'A3': 'x', 'B1': '=SUMIFS(A1:A3,A1:A3,">1")', 'B2': '=IF(A1>0,"p","n")&A3',
                     'B3': '=VLOOKUP(2,A1:B3,1,0)', 'C1': '=COUNTIFS(A1:A3,"x")', 'C2': '=INDEX(A1:B3,2,1)'})],
     'W5': [('a', {'A1': '=b!A1+c!A1'}), ('b', {'A1': '=c!A1*2'}), ('c', {'A1': 7})],
+    # constants that are equal as Python values but not as cell values, in both orders: a value-keyed cache across
+    # translations changes the text of the workbook that comes second
+    'W10': [('S', {'A1': True, 'A2': 1, 'A3': 0, 'A4': False, 'A5': 1.0, 'B1': '=A1&A2&A3&A4'})],
+    'W11': [('S', {'A1': 1, 'A2': True, 'A3': False, 'A4': 0, 'A5': 2, 'B1': '=A1&A2&A3&A4'})],
     'W6': [('S', {f'{c}{r}': (r * 10 + i if (r + i) % 3 else f'={c}{r - 1 or 9}+1') for i, c in enumerate('ABCDE')
                   for r in range(1, 9) if not (r == 1 and (r + i) % 3 == 0)})],
 }
